@@ -11,6 +11,7 @@ and for the layer hierarchies of spec/Layers.tla (inherited services, data objec
 from __future__ import annotations
 
 import json
+import os
 import multiprocessing as mp
 import random
 import re
@@ -177,6 +178,41 @@ def report_omissions(text: str, got: Dict[str, Any]) -> List[List[str]]:
     return [[k, n] for k, ns in names.items() for n in ns if not re.search(r"\b" + re.escape(n) + r"\b", sec.get(k, ""))]
 
 
+def _archive(path: str, docs: List[str]) -> None:
+    import zipfile
+    with zipfile.ZipFile(path, "w") as z:
+        for k, d in enumerate(docs):
+            sfx = ".odx-cs" if "<COMPARAM-SUBSET" in d else (".odx-c" if "<COMPARAM-SPEC " in d else ".odx-d")
+            z.writestr(f"doc{k}{sfx}", d)
+
+
+def cli_reports(new_docs: List[str], old_docs: List[List[str]], scratch: str, variants: Any) -> Tuple[List[str], str]:
+    """the command line tool on NEW with several old files (-db A B ...): the text of each report ("Changes in file ...")"""
+    import argparse
+    import contextlib
+    import io
+    import os
+    from odxtools.cli import compare as cmp_
+    os.makedirs(scratch, exist_ok=True)
+    names = [os.path.join(scratch, "new.pdx")] + [os.path.join(scratch, f"old{k + 1}.pdx") for k in range(len(old_docs))]
+    for nm, docs in zip(names, [new_docs] + old_docs):
+        _archive(nm, docs)
+    buf = io.StringIO()
+    try:
+        with contextlib.redirect_stdout(buf):
+            cmp_.run(argparse.Namespace(pdx_file=names[0], database=names[1:], variants=variants, no_details=True))
+    except Exception as e:  # noqa: BLE001
+        return [], f"{type(e).__name__}: {str(e)[:100]}"
+    finally:
+        for nm in names:
+            if os.path.exists(nm):
+                os.remove(nm)
+        with contextlib.suppress(OSError):
+            os.rmdir(scratch)
+    parts = buf.getvalue().split("Changes in file")[1:]
+    return parts, ""
+
+
 def process(args: Tuple[List[Dict[str, Any]], int, int]) -> Dict[str, Any]:
     from odxtools.cli.compare import Comparison
     recs, seed_, chunk_no = args
@@ -184,7 +220,7 @@ def process(args: Tuple[List[Dict[str, Any]], int, int]) -> Dict[str, Any]:
     fails: List[Tuple[str, Dict[str, Any]]] = []
     div: List[Tuple[str, Dict[str, Any]]] = []
     st = {"cases": 0, "comparisons": 0, "self_comparisons": 0, "single_edits": 0, "renames": 0, "attr_edits": 0, "dop_edits": 0,
-          "db_comparisons": 0, "metrics_rows": 0, "ambiguous": 0, "changed_expected": 0, "prints": 0, "printed_names": 0}
+          "db_comparisons": 0, "metrics_rows": 0, "ambiguous": 0, "changed_expected": 0, "prints": 0, "printed_names": 0, "cli_runs": 0}
     shared = Comparison()
     shared.param_detailed = True
     shared.obj_detailed = True
@@ -328,6 +364,23 @@ def process(args: Tuple[List[Dict[str, Any]], int, int]) -> Dict[str, Any]:
                 fail("print_raises", rec, {"exc": err})
         except Exception as ex:  # noqa: BLE001
             fail("compare_raises", rec, {"exc": f"{type(ex).__name__}: {str(ex)[:120]}", "level": "database"})
+        # ---- the command line tool with two old files: the first is the old version, the second a copy of the new one; each
+        # report compares NEW with the file it names
+        if st["cases"] % 12 == 1 and not rec["report"]["ambiguous"]:
+            st["cli_runs"] += 1
+            want = rec["report"]
+            changed = bool(want["new"] or want["deleted"] or want["renamed"] or want["changed"])
+            nd, od = build_docs(rec["new"], ids, False, 0), build_docs(rec["old"], {}, False, 0)
+            parts, err = cli_reports(nd, [od, nd], str(tlc.WORK / f"c18cli-{os.getpid()}"), ["BV"] if st["cli_runs"] % 2 else None)
+            if err:
+                fail("compare_raises", rec, {"exc": err, "level": "command line"})
+            elif len(parts) != 2:
+                fail("cli_reports", rec, {"reports": len(parts), "expected": 2})
+            else:
+                says = ["Changed diagnostic services for diagnostic layer" in p_ for p_ in parts]
+                if says != [changed, False]:
+                    fail("cli_reports", rec, {"reports_change": says, "expected": [changed, False],
+                                              "files": ["old version", "copy of the new version"]})
         # ---- the overview: old first, then new (same layer names, different content)
         for (db, side, ncp, ex_) in ((db_o, rec["old"], ncp_o, ex_o), (db_n, rec["new"], ncp_n, ex_n)):
             try:
@@ -462,7 +515,7 @@ def check(tier: str, replay: Optional[str] = None) -> int:
         v.diverge(what, d)
     print(f"[C18] replay: {stats} divergences={ndiv}", flush=True)
     if not replay:
-        for k in ("renames", "attr_edits", "dop_edits", "changed_expected", "metrics_rows", "inherited_counted", "comparams_counted", "printed_names"):
+        for k in ("renames", "attr_edits", "dop_edits", "changed_expected", "metrics_rows", "inherited_counted", "comparams_counted", "printed_names", "cli_runs"):
             if not stats.get(k):
                 raise tlc.MachineryError(f"vacuity: {k} = 0 in {stats}")
     cov = {"states": res.distinct + hstates, "transitions": res.generated, "traces_validated_against_impl": stats.get("cases", 0),
